@@ -32,6 +32,7 @@ type Frame struct {
 	fx        fxCount // side-effect counters when the frame was pushed
 	pcBase    int     // len(st.pc) when the frame was pushed
 	dirty     bool    // wrote to an object older than the frame
+	goRoot    bool    // root frame of a goroutine run by vnd.RunGoroutines
 }
 
 type draw struct {
@@ -100,6 +101,14 @@ type State struct {
 	recycled  []int // backing arrays handed back to a sync.Pool
 	clockReads int
 	lockCounts map[string]int // immutable: replaced on update
+	goroutines []goroutine    // go statements met so far and not yet run (immutable: replaced on update)
+}
+
+// goroutine is a go statement's callee and arguments, evaluated at the statement.
+type goroutine struct {
+	fn   Value
+	args []Value
+	desc string
 }
 
 func newState() *State {
@@ -138,6 +147,7 @@ func (s *State) clone() *State {
 		recycled:  s.recycled,
 		clockReads: s.clockReads,
 		lockCounts: s.lockCounts,
+		goroutines: s.goroutines,
 	}
 	if s.panicking != nil {
 		pi := *s.panicking
